@@ -70,11 +70,16 @@ fn run_threads(c: &Value) -> Vec<Value> {
                     let idx = if round % 2 == 0 { (j + t + 7 * round) % k } else { (k - 1 - j + t + 7 * round) % k };
                     let c = &calls[idx];
                     let mut ev = base_event(c);
-                    ev.insert("thread".into(), json!(t));
-                    ev.insert("seq".into(), json!(round * k + j));
                     if let Err(e) = worker::run_op(c, &mut ev) {
                         ev.insert("harness_error".into(), json!(e));
                     }
+                    // signature of everything observable about this call (before the thread / round
+                    // bookkeeping is added): equal calls must have equal signatures (C19)
+                    let sig = Value::Object(ev.clone()).to_string();
+                    ev.insert("sig".into(), json!(sig));
+                    ev.insert("call".into(), json!(idx));
+                    ev.insert("thread".into(), json!(t));
+                    ev.insert("seq".into(), json!(round * k + j));
                     evs.push(Value::Object(ev));
                 }
             }
